@@ -31,4 +31,6 @@ EXTRAS = [
     lambda rep, fb, tier: __import__("vf.rules.lints", fromlist=["x"]).rule_ctor_roles(rep, fb),
     lambda rep, fb, tier: __import__("vf.rules.lints", fromlist=["x"]).rule_call_roles(rep, fb),
     lambda rep, fb, tier: __import__("vf.rules.lints2", fromlist=["x"]).rule_missing_predicate(rep, fb),
+    lambda rep, fb, tier: __import__("vf.rules.lints3", fromlist=["x"]).rule_option_shortcut(rep, fb),
+    lambda rep, fb, tier: __import__("vf.rules.lints3", fromlist=["x"]).rule_option_fillna_stops(rep, fb),
 ]
